@@ -5,7 +5,10 @@ from vlib import mk_case, hexs
 TRUSTED = ["extracted model of searchInts / unpack (Pos/LineTable.v)", "the generator's own bookkeeping of the line of every call and failing statement (independent of the implementation)"]
 ASSUMPTIONS = ["scanner, compiler source map and throw's trace construction are decided by generated layouts, not by theorems"]
 
-FAILS = [("x / 0", "ZeroDivisionError"), ("[1][5]", "IndexOutOfBoundsError"), ("int(\"zz\")", None), ("x(1)", "NotCallableError"), ("len()", "WrongNumberOfArgumentsError")]
+FAILS = [("x / 0", "ZeroDivisionError"), ("[1][5]", "IndexOutOfBoundsError"), ("int(\"zz\")", None), ("x(1)", "NotCallableError"), ("len()", "WrongNumberOfArgumentsError"),
+         # a literal constant as operand: the optimizer substitutes it
+         ("c9 / (x - x)", "ZeroDivisionError"), ("c9 % (x - x)", "ZeroDivisionError"), ("cs9 - x", "TypeError"), ("(x - x) / c0", "ZeroDivisionError")]
+CONSTS = ["const c9 = 10", "const (cs9 = \"s\"; c0 = 0)"]
 
 def build(rng, depth, k, in_module):
     """returns (main src, module srcs, expected [(file, line)] outermost first, error name)"""
@@ -15,7 +18,14 @@ def build(rng, depth, k, in_module):
     rec = rng.choice([0, 0, 1, 2, 3]) if (depth >= 2 and not in_module) else 0
     def filler(lines):
         for _ in range(rng.randrange(0, 3)):
-            lines.append(rng.choice(["", "// comment", "u%d := %d" % (rng.randrange(1000), rng.randrange(9)), "   "]))
+            u = "u%d := %d" % (rng.randrange(1000), rng.randrange(9))
+            pick = rng.randrange(9)
+            if pick < 4: lines.append(["", "// comment", u, "   "][pick])
+            elif pick == 4: lines.append(u + " /* trailing note */")
+            elif pick == 5: lines.append(u + " // tail")
+            elif pick == 6: lines.append("/* leading */ " + u)
+            elif pick == 7: lines.append(u + " /* a comment"); lines.append("   over two lines */")
+            else: lines.append("/* block"); lines.append(" comment */")
     def body_lines(lines, fname_prefix, depth, file):
         # define f_depth .. f_1, each calling the next on its own line; the innermost fails
         fn_line = {}
@@ -45,12 +55,12 @@ def build(rng, depth, k, in_module):
         return fn_line
     mods = []
     if in_module and depth >= 1:
-        ml = []
+        ml = list(CONSTS)
         fl = body_lines(ml, "g", depth, "m1")
         filler(ml)
         ml.append("return {f: g1}")
         mods.append("\n".join(ml) + "\n")
-        lines = [""] * k
+        lines = [""] * k + list(CONSTS)
         filler(lines)
         lines.append("m := import(\"m1\")")
         filler(lines)
@@ -59,7 +69,7 @@ def build(rng, depth, k, in_module):
         for d in range(1, depth + 1): expected.append(("m1", fl[d]))
         lines.append("return res")
     else:
-        lines = [""] * k
+        lines = [""] * k + list(CONSTS)
         fl = body_lines(lines, "f", depth, "(main)") if depth >= 1 else {}
         filler(lines)
         if depth == 0:
@@ -124,7 +134,7 @@ def run(rep, br, proofs, rng, tier):
             rep.violation({"property": "C16", "kind": "correspondence", "why": "line table model (Pos/LineTable.v unpack) and SourceFileSet.Position disagree", "case": m["line"][:1500], "impl": m["expect"], "model": model.get(m["id"])}, found=False)
     rep.coverage.update({
         "evaluations": len(cases) + len(mcases), "distinct_nontrivial": ok,
-        "rule": "generated one-statement-per-line layouts (random blank lines, comments and filler declarations) in which an error (failing operator, failing builtin, bad index, call of a non-callable, wrong argument count, thrown value) escapes from call depth 0,1,2,3,5,8, in the main file or inside an imported source module, optionally through 1-3 recursive activations of one call site, x optimizer on/off x encode/decode x k prepended blank lines; expected lines computed by the generator; positions must lie inside the named file; real line tables and sampled offsets re-resolved by the Coq unpack; non-trivial = a trace was produced and matched",
+        "rule": "generated one-statement-per-line layouts (random blank lines, line comments, block comments before, after and across statements, filler declarations, literal constants as operands of the failing operator) in which an error (failing operator, failing builtin, bad index, call of a non-callable, wrong argument count, thrown value) escapes from call depth 0,1,2,3,5,8, in the main file or inside an imported source module, optionally through 1-3 recursive activations of one call site, x optimizer on/off x encode/decode x k prepended blank lines; expected lines computed by the generator; positions must lie inside the named file; real line tables and sampled offsets re-resolved by the Coq unpack; non-trivial = a trace was produced and matched",
         "samples": [cases[0]["src"], str(cases[0]["expected"])],
         "traces_matched": ok, "unpack_compared": len(mcases), "disagreements": len(dis), "oracle_failures": len(fails)})
 
